@@ -43,6 +43,7 @@ class Scratch:
 
     def __init__(self):
         base = os.environ.get("VERIF_SCRATCH", "/var/tmp")
+        self.owner = os.getpid()
         self.root = os.path.join(base, "qverif.%d" % os.getpid())
         os.makedirs(self.root, exist_ok=True)
         self.keep = bool(os.environ.get("VERIF_KEEP"))
@@ -57,6 +58,10 @@ class Scratch:
         self.cleanup()
         os._exit(128 + signum)
 
+    def _mine(self):
+        # forked pool workers inherit the handlers; only the creating process may remove the scratch root
+        return os.getpid() == self.owner
+
     def path(self, *parts):
         p = os.path.join(self.root, *parts)
         os.makedirs(os.path.dirname(p), exist_ok=True)
@@ -68,7 +73,7 @@ class Scratch:
         return p
 
     def cleanup(self):
-        if not self.keep:
+        if not self.keep and self._mine():
             shutil.rmtree(self.root, ignore_errors=True)
 
 
